@@ -1008,6 +1008,10 @@ def _finalize_fairy(
             )
             if connection_record:
                 connection_record.invalidate(e=e)
+            elif can_close_or_terminate_connection:
+                # detached; there is no _ConnectionRecord that would
+                # close the DBAPI connection
+                pool._close_connection(dbapi_connection, terminate=True)
             if not isinstance(e, Exception):
                 # the exception (e.g. asyncio.CancelledError,
                 # KeyboardInterrupt) propagates; return the now-invalidated
